@@ -441,7 +441,7 @@ impl Hist {
                 continue;
             }
             done[b] = true;
-            let (g, sc) = match expected_gradient(&p, b, &seedv, start) {
+            let (g, sc) = match expected_gradient_scaled(&p, b, &seedv, start, !p.is_exact_class() || self.bound > exact_bound()) {
                 Some(x) => x,
                 None => continue,
             };
